@@ -35,6 +35,26 @@ PROP = {  # keyword in subject -> (property, what failed)
  "empty payload for a rejection": ("C21", "segments 8101 | <empty> | 8101 yielded RejectTx(\"\") as second message"),
  "does not assert on an unexpected Connected": ("C29", "Connected(p) twice (or after a message) hit assert!(handshake == Propose) in propose_handshake"),
  "unknown variant tag": ("C09", "bytes a3 80 11 decoded as BTreeMap<DRep,Coin> (and GovAction / FuturePParams / NextEpochChange with an unknown tag) hit unreachable!()"),
+ "vkey witness of the wrong length": ("C33", "a 31-byte vkey / 63-byte signature witness panicked verify_signature (copy_from_slice)"),
+ "alonzo-compatible asset quantities does not overflow": ("C33", "mary B2 + mint {A: 2^63-1}: i64 add overflow in add_same_policy_assets"),
+ "conway asset quantities does not overflow": ("C33", "conway B2 + output asset 2^64-1: u64 add overflow"),
+ "without an i64 detour": ("C34", "conway: input quantity 2^64-1 + mint 1 wrapped to 0 (spent + minted 2^64, produced 0 accepted); also an i64 overflow panic"),
+ "absent from the inputs is a negative value": ("C34", "conway: burn of an asset absent from the inputs became 2^64-1 (minted -1, produced 2^64-1 accepted)"),
+ "computed in i128": ("C34", "mary: outputs 16 and 2^64-1 of one asset summed to 15 in i64 and balanced"),
+ "minimum collateral is compared": ("C33", "B3 + fee = 2^63: fee * collateral_percentage overflow"),
+ "summing redeemer execution units does not overflow": ("C33", "every redeemer mem = 2^63: mem += overflow in alonzo/babbage check_tx_ex_units"),
+ "check_tx_ex_units sums": ("C37", "conway: sum(mem) = max+1 accepted, the lazy map never ran"),
+ "legacy output holding an asset with quantity 0": ("C33", "conway: legacy-form output / collateral return with an asset of quantity 0 hit PositiveCoin::try_from(0).unwrap()"),
+ "instead of hitting unimplemented": ("C33", "babbage validator given a Conway-era UTxO entry hit unimplemented!()"),
+ "check_fees sums the balances": ("C33", "byron: change = 2^64-1 overflowed the balance sum"),
+ "outputs that exceed the inputs": ("C33", "byron: outputs above inputs underflowed inputs_balance - outputs_balance"),
+ "get_signature rejects": ("C33", "byron: 63-byte signature panicked get_signature"),
+ "get_verification_key rejects": ("C33", "byron: 31-byte key panicked get_verification_key"),
+ "repeated input is counted once": ("C34", "inputs += duplicate: the UTxO entry was counted twice (spent 15 ADA, produced + fee 25 ADA accepted), every era"),
+ "redeem-only transactions": ("C34", "byron: redeem-only inputs returned Ok without comparing balances (inputs 10 ADA, outputs 9.2e18)"),
+ "verifies every remaining vkey witness": ("C35", "witnesses [valid K0, valid K1, corrupt K2] accepted: check_remaining_vk_wits returned at the first valid uncovered witness"),
+ "size of the serialised transaction": ("C36", "Shelley..Alonzo: validator size = ledger size - 2; fee a*L+b-1 and max_tx_size L-1 accepted"),
+ "does not count the validity flag": ("C36", "Babbage/Conway: validator size = ledger size + 1; fee a*L+b and max_tx_size = L rejected"),
  "CostModels encodes": ("C06", "conway CostModels{unknown:{3:[1]}} encoded as a0 and decoded with unknown:{}"),
 }
 log = subprocess.run(["git","-C","/repo","log","--format=%h\t%s","--grep=^fix:"],capture_output=True,text=True).stdout.strip().splitlines()
